@@ -3,7 +3,7 @@ import engine
 
 OPS = ["echelonize_naive", "gauss_delayed", "echelonize_m4ri", "echelonize_pluq", "echelonize", "_echelonize_m4ri",
        "top_echelonize_m4ri"]
-PROOFS = ["Properties_C02", "Properties_C02b"]
+PROOFS = ["Properties_C02", "Properties_C02b", "Properties_C02c"]
 
 
 def run(res, tier, seed):
